@@ -100,7 +100,10 @@ tround_tdur_cocl(struct dt_t_s t, struct dt_dtdur_s dur, bool nextp)
 	/* unpack t */
 	tunp = (t.hms.h * MINS_PER_HOUR + t.hms.m) * SECS_PER_MIN + t.hms.s;
 	with (unsigned int diff = tunp % (unsigned int)sdur) {
-		if (!diff && !nextp) {
+		/* a fraction of a second is past the multiple as well */
+		const bool frac = t.hms.ns != 0U;
+
+		if (!diff && !frac && !nextp) {
 			/* do nothing, i.e. really nothing,
 			 * in particular, don't set the slots again in the
 			 * assign section
@@ -110,7 +113,7 @@ tround_tdur_cocl(struct dt_t_s t, struct dt_dtdur_s dur, bool nextp)
 			goto out;
 		} else if (!downp) {
 			tunp += sdur - diff;
-		} else if (!diff/* && downp && nextp*/) {
+		} else if (!diff && !frac/* && downp && nextp*/) {
 			tunp -= sdur;
 		} else {
 			tunp -= diff;
@@ -702,7 +705,7 @@ dt_round(struct dt_dt_s d, struct dt_dtdur_s dur, bool nextp)
 		case DT_DURYR:
 			/* special case for cocl days/bizdays */
 			if (dur.cocl) {
-#define midnightp(x)	(!(x).hms.h && !(x).hms.m && !(x).hms.s)
+#define midnightp(x)	(!(x).hms.h && !(x).hms.m && !(x).hms.s && !(x).hms.ns)
 				d.t.carry =
 					(dur.d.dv > 0 &&
 					 (nextp || !midnightp(d.t))) |
